@@ -456,7 +456,17 @@ func (s *locSys) step(op map[string]interface{}) map[string]interface{} {
 			}
 			s.kept[name] = m
 		}
+		_, keeps := op["keepAs"]
+		_, reuses := op["reuse"]
 		got, err := loc.AddFact(ctx, id, core.Map(m))
+		if !keeps && !reuses {
+			// ... and a caller that does not hand its map in again may re-fill it for something else: the location owns a
+			// copy of the top level (values below it are shared by design of PrepareFact's shallow copy, so they are left alone)
+			for k := range m {
+				m[k] = "verif-clobbered"
+			}
+			m["verifClobbered"] = true
+		}
 		if err != nil {
 			return errR(err)
 		}
